@@ -15,7 +15,7 @@ func init() {
 		Explanation: "Decided: each surgery command writes ONLY its output file — every writer call takes a path derived from the --output option, is dominated by the success of common.CopyFile(source, output), and the source path flows only into existence checks, the copy's source argument and read-only readers; " +
 			"CopyFile refuses an existing destination (so output != source); raw page writers are reachable only from the surgery code; metas rewritten by surgery get a fresh checksum and `freelist abandon` rewrites BOTH metas; " +
 			"revert-meta-page copies the OTHER meta over the active one (tabulated) and sets the target page id before writing. " +
-			"NOT decided: that the output's free pages equal the unreachable pages, that the reverted file opens at the previous state and passes Check (dynamic; rests on C06).",
+			"NOT decided: that the output's free pages equal the unreachable pages, that the reverted file opens at the previous state and passes Check (dynamic; rests on C06). Round 3: the free list that `freelist rebuild` persists comes from the integrity check's reachability walk (C13.R1 re-evaluated).",
 		Run: func(c *Ctx) {
 			c20R1(c, "C20.R1")
 			c20R2(c, "C20.R2")
